@@ -1,4 +1,6 @@
-// C16: XML reading is total and memory-safe on every byte string (bounded length); token spans on the supported subset.
+// C16: XML reading is total and memory-safe on every byte string (bounded length) and faithful on the supported subset.
+// Engine: vp/llpath.py (path-forking symbolic execution); the parser is driven through parseXML on a heap buffer that holds
+// exactly the file's bytes plus the terminating NUL readXML appends, so any read outside the file's bytes is a bounds violation.
 #include "vp.h"
 #include "rkcommon/xml/XML.h"
 #include "rkcommon/xml/XML.cpp"
@@ -8,13 +10,13 @@ using namespace rkcommon;
 #define NBYTES 3
 #endif
 
-// parseXML on a buffer of exactly NBYTES symbolic bytes followed by NUL (every byte value; the heap block has exactly NBYTES+1 bytes,
-// so any read outside the file's bytes is a bounds violation)
-VP_ENTRY vp_main_parse_any()
+static void total_on(const char *prefix, int tail)
 {
-  char *buf = new char[NBYTES + 1];
-  for (int i = 0; i < NBYTES; i++) { buf[i] = (char)vp_nondet_u8(); }
-  buf[NBYTES] = 0;
+  int pl = 0; while (prefix[pl]) pl++;
+  char *buf = new char[pl + tail + 1];
+  for (int i = 0; i < pl; i++) buf[i] = prefix[i];
+  for (int i = 0; i < tail; i++) buf[pl + i] = (char)vp_nondet_u8();
+  buf[pl + tail] = 0;
   bool other = false;
   try {
     xml::XMLDoc doc;
@@ -25,23 +27,124 @@ VP_ENTRY vp_main_parse_any()
   delete[] buf;
   vp_reach("end");
 }
+// every byte string of length NBYTES
+VP_ENTRY vp_main_parse_any() { total_on("", NBYTES); }
+// the same behind prefixes that put the parser into each of its scanning loops
+VP_ENTRY vp_main_parse_prop() { total_on(vp_nondet_bool() ? "<a b=\"" : "<a b='", NBYTES); }
+VP_ENTRY vp_main_parse_open() { total_on("<a>", NBYTES); }
+VP_ENTRY vp_main_parse_tag() { total_on("<a ", NBYTES); }
+VP_ENTRY vp_main_parse_comment() { total_on("<!--", NBYTES); }
+VP_ENTRY vp_main_parse_header() { total_on("<?xml", NBYTES); }
+VP_ENTRY vp_main_parse_close() { total_on("<a>x</", NBYTES); }
 
-// the same on inputs that exercise the quoted-string scanner: '<' name ' ' name '=' quote then symbolic bytes
-VP_ENTRY vp_main_parse_prop()
+// ---- faithfulness on generated documents (vp_pick: one path per generated document; the parser then runs on concrete text,
+// the obligations compare the tree read back with the generating choices)
+static const char *WS[3] = {"", " ", "\n\t"};
+static char sym_where(bool (*ok)(unsigned char)) { unsigned char c = vp_nondet_u8(); vp_assume(ok(c)); return (char)c; }
+static bool is_name0(unsigned char c) { return (c >= 'a' && c <= 'z') || (c >= 'A' && c <= 'Z') || c == '_'; }
+static bool is_name1(unsigned char c) { return is_name0(c) || (c >= '0' && c <= '9') || c == '.'; }
+static bool is_text(unsigned char c) { return c != 0 && c != '<' && !(c == ' ' || (c >= 9 && c <= 13)); }
+static bool is_dq_value(unsigned char c) { return c != 0 && c != '"' && c != '\\'; }
+static bool is_sq_value(unsigned char c) { return c != 0 && c != '\'' && c != '\\'; }
+static xml::XMLDoc parse(std::string &text) { xml::XMLDoc doc; xml::parseXML(doc, &text[0]); return doc; }
+
+// layout: [header] ws [comment ws] <n p="v" ws (/> | > ws [content ws] </n>) ws [comment ws]
+VP_ENTRY vp_main_faithful_layout()
 {
-  const int TAIL = NBYTES;
-  char *buf = new char[6 + TAIL + 1];
-  buf[0] = '<'; buf[1] = 'a'; buf[2] = ' '; buf[3] = 'b'; buf[4] = '=';
-  buf[5] = vp_nondet_bool() ? '"' : '\'';
-  for (int i = 0; i < TAIL; i++) buf[6 + i] = (char)vp_nondet_u8();
-  buf[6 + TAIL] = 0;
-  bool other = false;
-  try {
-    xml::XMLDoc doc;
-    xml::parseXML(doc, buf);
-  } catch (const std::runtime_error &) {
-  } catch (...) { other = true; }
-  vp_assert(!other, "parseXML returns a document or throws std::runtime_error");
-  delete[] buf;
+  const char *ws = WS[vp_pick(3)];
+  unsigned header = vp_pick(3), c1 = vp_pick(2), c2 = vp_pick(2), body = vp_pick(4);   // body: 0 self-closing, 1 empty, 2 "t", 3 "t u"
+  std::string t;
+  if (header == 1) t += "<?xml?>"; else if (header == 2) t += "<?xml version=\"1.0\"?>";
+  t += ws;
+  if (c1) { t += "<!-- c -- > -->"; t += ws; }
+  t += "<n p=\"v\""; t += ws;
+  std::string content;
+  if (body >= 2) content.push_back(sym_where(is_text));                                   // every non-blank byte except '<'
+  if (body == 3) { content += " "; content.push_back(sym_where(is_text)); }
+  if (body == 0) t += "/>"; else { t += ">"; t += ws; if (body >= 2) { t += content; t += ws; } t += "</n>"; }
+  t += ws;
+  if (c2) { t += "<!---->"; t += ws; }
+  xml::XMLDoc doc = parse(t);
+  vp_assert(doc.child.size() == 1, "one top-level node");
+  if (doc.child.size() == 1) {
+    const xml::Node &n = doc.child[0];
+    vp_assert(n.name == "n", "node name");
+    vp_assert(n.content == content, "content, trimmed");
+    vp_assert(n.child.empty() && n.properties.size() == 1 && n.getProp("p") == "v", "property and no children");
+  }
+  vp_reach("end");
+}
+
+// names and properties: <name [p=..] [p|q=..] /> with both quote styles, whitespace around '=', escaped quote and '<' inside a value
+VP_ENTRY vp_main_faithful_props()
+{
+  const char *ws = WS[vp_pick(3)];
+  std::string name(1, sym_where(is_name0)); if (vp_pick(2)) name.push_back(sym_where(is_name1));   // every legal name of 1-2 characters
+  unsigned np = vp_pick(3);
+  std::string pn[2], pv[2];
+  std::string t = "<" + name;
+  for (unsigned i = 0; i < np; i++) {
+    pn[i] = (i == 1 && vp_pick(2)) ? "q" : "p";
+    bool dq = vp_pick(2);
+    const char *qt = dq ? "\"" : "'";
+    if (vp_pick(2)) pv[i] = std::string(1, sym_where(dq ? is_dq_value : is_sq_value));      // every byte that does not end the value
+    else { pv[i] = "\\"; pv[i] += qt; }                                                      // an escaped quote stays inside the value
+    t += " "; t += pn[i]; t += ws; t += "="; t += ws; t += qt; t += pv[i]; t += qt;
+  }
+  t += ws; t += "/>";
+  xml::XMLDoc doc = parse(t);
+  vp_assert(doc.child.size() == 1, "one top-level node");
+  if (doc.child.size() == 1) {
+    const xml::Node &n = doc.child[0];
+    vp_assert(n.name == name, "node name (letters, digits, '_' and '.' after the first character)");
+    size_t expect_props = (np == 2 && pn[0] == pn[1]) ? 1 : np;
+    vp_assert(n.properties.size() == expect_props, "one property per distinct name");
+    for (unsigned i = 0; i < np; i++) { bool last = !(i == 0 && np == 2 && pn[1] == pn[0]); if (last) vp_assert(n.hasProp(pn[i]) && n.getProp(pn[i]) == pv[i], "property value is the text between the quotes"); }
+    vp_assert(!n.hasProp("z") && n.getProp("z", "dflt") == "dflt", "absent property: fallback");
+  }
+  vp_reach("end");
+}
+
+// <r> ws (comment? child ws)* </r> with 0..2 children, each self-closing, empty, with content, or with a grandchild carrying a property
+VP_ENTRY vp_main_faithful_tree()
+{
+  const char *ws = WS[vp_pick(3)];
+  unsigned comments = vp_pick(2), nc = vp_pick(3);
+  std::string names[2]; unsigned kind[2];
+  std::string t = "<r>"; t += ws;
+  for (unsigned i = 0; i < nc; i++) {
+    names[i] = std::string(1, "xy"[vp_pick(2)]);
+    kind[i] = vp_pick(4);
+    if (comments) { t += "<!-- k -->"; t += ws; }
+    if (kind[i] == 0) t += "<" + names[i] + "/>";
+    else if (kind[i] == 1) t += "<" + names[i] + "></" + names[i] + ">";
+    else if (kind[i] == 2) t += "<" + names[i] + "> c </" + names[i] + ">";
+    else t += "<" + names[i] + "><g k='1'/></" + names[i] + ">";
+    t += ws;
+  }
+  t += "</r>";
+  xml::XMLDoc doc = parse(t);
+  vp_assert(doc.child.size() == 1 && doc.child[0].name == "r", "root");
+  if (doc.child.size() == 1) {
+    const xml::Node &r = doc.child[0];
+    vp_assert(r.child.size() == nc, "children: same number");
+    for (unsigned i = 0; i < nc && i < r.child.size(); i++) {
+      vp_assert(r.child[i].name == names[i], "children in document order");
+      vp_assert(r.child[i].content == (kind[i] == 2 ? "c" : ""), "child content trimmed");
+      vp_assert(r.child[i].child.size() == (kind[i] == 3 ? 1u : 0u), "grandchildren");
+      if (kind[i] == 3 && r.child[i].child.size() == 1) vp_assert(r.child[i].child[0].name == "g" && r.child[i].child[0].getProp("k") == "1", "grandchild name and property");
+    }
+  }
+  vp_reach("end");
+}
+
+// a mismatched close tag / junk is an error, not a crash
+VP_ENTRY vp_main_reject()
+{
+  const char *bad[6] = {"<a></b>", "<a", "<a b>", "<a b=>", "<1/>", "<a>x<b/>y</a>"};
+  std::string s = bad[vp_pick(6)];
+  bool threw = false;
+  try { xml::XMLDoc doc; xml::parseXML(doc, &s[0]); } catch (const std::runtime_error &) { threw = true; }
+  vp_assert(threw, "malformed documents are reported by std::runtime_error");
   vp_reach("end");
 }
